@@ -69,6 +69,13 @@ func genC07Tasks(r *Rng, g *Gen, w *World, nt int) {
 						}
 					}
 				}
+				if r.P(0.15) {
+					for _, v := range w.Cfg.Vars {
+						if r.P(0.4) {
+							p.Reenter = append(p.Reenter, v.Name)
+						}
+					}
+				}
 				s.Plan = &p
 			}
 			script = append(script, s)
@@ -214,16 +221,31 @@ func (rn *c07run) exec(exprs []*Compiled, s Step, yield func(kind, name string),
 		env = NewEnv(rn.ops, &Plan{})
 	}
 	env.Yield = yield
-	if depth == 0 {
-		// re-entrancy: an operator evaluates the next shared expression from inside this call
+	ctx := &eval.Ctx{VariableFetcher: &SimFetcher{E: env}}
+	if depth == 0 && s.Plan != nil {
+		// re-entrancy: an operator, or the fetch of a "computed" variable,
+		// evaluates the next shared expression from inside this call — with the
+		// SAME Ctx when the clock is even (a request's Ctx serves every rule),
+		// with a fresh one otherwise
 		env.Sub = func() interface{} {
-			inner := Step{Op: "eval", Expr: s.Expr + 1, Plan: &Plan{Kind: "eval", Bind: s.Plan.Bind, Clock: s.Plan.Clock}}
-			o := rn.exec(exprs, inner, yield, 1)
+			next := exprs[(s.Expr+1)%len(exprs)]
+			ikind := "eval"
+			if s.Op == "tryeval" {
+				ikind = "tryeval"
+			}
+			var o Outcome
+			if s.Plan.Clock%2 == 0 {
+				o = next.RunCtx(ctx, env, ikind)
+			} else {
+				ienv := NewEnv(rn.ops, &Plan{Kind: ikind, Bind: s.Plan.Bind, Unavail: s.Plan.Unavail, Clock: s.Plan.Clock})
+				ienv.Yield = yield
+				o = next.RunEnv(ienv, ikind)
+			}
 			return int64(hash64(o.Class()+ValStr(o.Val)) % 1000)
 		}
 	}
 	kind := s.Op
-	o := c.RunEnv(env, kind)
+	o := c.RunCtx(ctx, env, kind)
 	return &o
 }
 
